@@ -16,7 +16,7 @@ class Facts:
         self.crate = r['crate']
         self.target = r['target']
         self.pointer_bits = r['pointer_bits']
-        self.fns = {}
+        self.fns = FnTable()
         for x in r['fns']:
             self.fns[x['path']] = Fn(self, x)
         self.statics = {x['path']: x for x in r['statics']}
@@ -55,6 +55,27 @@ class Facts:
         return {'cfg': self.cfg, 'target': self.target, 'functions': len(self.fns),
                 'blocks': nb, 'call_sites': ne, 'instances': len(self.instances),
                 'extern_callees': len(self.externs)}
+
+
+class FnTable(dict):
+    """fn path -> Fn.  Synthetic functions (bodies with private helpers inlined) are found by key but are not
+    part of any iteration over the program."""
+
+    def __init__(self):
+        super().__init__()
+        self.synth = {}
+
+    def __missing__(self, k):
+        return self.synth[k]
+
+    def get(self, k, d=None):
+        v = dict.get(self, k)
+        if v is None:
+            v = self.synth.get(k, d)
+        return v
+
+    def __contains__(self, k):
+        return dict.__contains__(self, k) or k in self.synth
 
 
 class Fn:
@@ -401,6 +422,8 @@ class Body:
                     l = st['lhs']
                     if not l['p']:
                         d[l['l']].append(('stmt', b, i))
+                    elif l['p'][0] == '*':
+                        pass        # a write through a pointer does not redefine the pointer
                     else:
                         d[l['l']].append(('part', b, i))
             t = blk['term']
@@ -408,6 +431,8 @@ class Body:
                 l = t['dest']
                 if not l['p']:
                     d[l['l']].append(('call', b))
+                elif l['p'][0] == '*':
+                    pass
                 else:
                     d[l['l']].append(('partcall', b))
         self._defs = d
@@ -1335,8 +1360,198 @@ class _ExitWalker(PathWalker):
         return conds, env
 
 
-def fn_exits(fn):
-    """[(value expr node, conds, env)] for every way fn can return a value"""
+def subst_hir(node, mapping, shift):
+    """copy of a HIR subtree with parameter references replaced by the caller's argument expressions and all
+    other local ids shifted (so that the callee's locals cannot collide with the caller's)"""
+    if isinstance(node, list):
+        return [subst_hir(x, mapping, shift) for x in node]
+    if not isinstance(node, dict):
+        return node
+    if node.get('k') == 'path' and node.get('res') == 'local':
+        if node.get('id') in mapping:
+            return mapping[node['id']]
+        n2 = dict(node)
+        n2['id'] = node['id'] + shift
+        return n2
+    out = {}
+    for k, v in node.items():
+        if k == 'id' and node.get('k') == 'bind':
+            out[k] = v + shift
+        else:
+            out[k] = subst_hir(v, mapping, shift) if isinstance(v, (dict, list)) else v
+    return out
+
+
+def private_callee(facts, e):
+    """(fn, args) when expression e is a call of a private crate function (not part of the public API, not a
+    trait method) whose parameters are plain bindings; None otherwise"""
+    e = strip_refs(e) if isinstance(e, dict) else e
+    if not isinstance(e, dict):
+        return None
+    path = args = None
+    if e.get('k') == 'call' and isinstance(e.get('f'), dict) and e['f'].get('k') == 'path':
+        path, args = e['f'].get('path'), list(e['args'])
+    elif e.get('k') == 'mcall':
+        path, args = e.get('path'), [e['recv']] + list(e['args'])
+    g = facts.fns.get(path) if path else None
+    if g is None or not g.hir or g.impl_trait or g.in_trait or g.reachable:
+        return None
+    params = g.hir.get('params', [])
+    if len(params) != len(args) or not all(pt.get('k') == 'bind' for pt in params):
+        return None
+    return g, args
+
+
+_EXIT_SHIFT = [0]
+
+
+def fn_exits(fn, delegate=True, _depth=0, _body=None):
+    """[(value expr node, conds, env)] for every way fn can return a value.  An exit whose value is the call of a
+    private helper (`return check(x)` / tail `check(x)`) is replaced by the helper's own exits, parameters
+    substituted by the argument expressions, so that moving the tail of a function into a helper changes nothing."""
     w = _ExitWalker()
-    w.walk_fn(fn)
-    return w.exits
+    if _body is not None:
+        w.tail(_body, (), {})
+    else:
+        w.walk_fn(fn)
+    if not delegate or _depth >= 3:
+        return w.exits
+    out = []
+    for (x, conds, env) in w.exits:
+        pc = private_callee(fn.facts, x)
+        if pc is None or pc[0].path == fn.path:
+            out.append((x, conds, env))
+            continue
+        g, args = pc
+        _EXIT_SHIFT[0] += 1
+        shift = 10000000 * (_EXIT_SHIFT[0] % 200 + 1)
+        mapping = {pt['id']: a for pt, a in zip(g.hir['params'], args)}
+        body = subst_hir(g.hir['value'], mapping, shift)
+        for (x2, c2, e2) in fn_exits(g, True, _depth + 1, body):
+            env2 = dict(env)
+            env2.update(e2)
+            # the helper's conditions carry their own env snapshots; complete them with the caller's bindings
+            c3 = []
+            for cd in c2:
+                if cd[0] == 'if':
+                    ee = dict(env)
+                    ee.update(cd[3])
+                    cd = ('if', cd[1], cd[2], ee)
+                c3.append(cd)
+            out.append((x2, tuple(conds) + tuple(c3), env2))
+    return out
+
+
+# --------------------------------------------------------------------------- MIR inlining of private helpers
+
+
+def _remap_mir(node, lmap, bmap):
+    """deep copy of a MIR JSON fragment with locals and block numbers renamed"""
+    if isinstance(node, list):
+        return [_remap_mir(x, lmap, bmap) for x in node]
+    if not isinstance(node, dict):
+        return node
+    if 'l' in node and 'p' in node and isinstance(node['p'], list):
+        pr = []
+        for e in node['p']:
+            if isinstance(e, dict) and 'idx' in e:
+                e = dict(e)
+                e['idx'] = lmap(e['idx'])
+            pr.append(e)
+        out = {k: v for k, v in node.items() if k not in ('l', 'p')}
+        out['l'] = lmap(node['l'])
+        out['p'] = pr
+        return out
+    out = {}
+    k = node.get('k')
+    for key, v in node.items():
+        if key in ('target', 'otherwise') and isinstance(v, int) and k in ('goto', 'switch', 'call', 'assert', 'drop'):
+            out[key] = bmap(v)
+        elif key == 'targets' and k == 'switch':
+            out[key] = [[a, bmap(b)] for a, b in v]
+        else:
+            out[key] = _remap_mir(v, lmap, bmap) if isinstance(v, (dict, list)) else v
+    return out
+
+
+def inline_mir(mir, facts, owner, pick, depth=3):
+    """MIR of `owner` with the calls selected by pick(callee Fn, call terminator) replaced by the callee's body:
+    arguments are copied into fresh locals (unnamed, so that canonical forms expand them to the caller's
+    argument expressions), the callee's blocks are appended, each `return` becomes `dest = move ret; goto target`."""
+    blocks = [dict(b) for b in mir['blocks']]
+    locals_ = list(mir['locals'])
+    inlined = []
+    budget = 40
+    work = [(i, 0) for i in range(len(blocks))]
+    while work and budget > 0:
+        bi, d = work.pop(0)
+        blk = blocks[bi]
+        t = blk['term']
+        if t['k'] != 'call' or blk.get('cleanup') or d >= depth:
+            continue
+        g = facts.fns.get(t['callee'].get('path') or '')
+        if g is None or g.path == owner or not pick(g, t) or t['target'] is None:
+            continue
+        cm = g.body.mir
+        if len(t['args']) != cm['arg_count']:
+            continue
+        budget -= 1
+        loff, boff = len(locals_), len(blocks)
+        for i, lo in enumerate(cm['locals']):
+            lo2 = dict(lo)
+            if i <= cm['arg_count']:
+                # return place and parameters become plain temporaries of the caller
+                lo2.pop('name', None)
+                lo2['user'] = False
+                if i and lo.get('name'):
+                    lo2['inlined_param'] = lo['name']
+            lo2['inlined_from'] = g.path
+            locals_.append(lo2)
+        direct = not t['dest']['p']       # the callee writes its result straight into the caller's destination local
+        lmap = (lambda l, o=loff, d=t['dest']['l']: d if l == 0 else l + o) if direct else (lambda l, o=loff: l + o)
+        bmap = lambda b, o=boff: b + o
+        for cb in cm['blocks']:
+            nb = _remap_mir(cb, lmap, bmap)
+            if nb['term']['k'] == 'return' and not nb.get('cleanup'):
+                if not direct:
+                    nb['stmts'] = list(nb['stmts']) + [{'k': 'assign', 'lhs': t['dest'], 'rv': {'k': 'use', 'op': {'move': {'l': loff, 'p': []}}},
+                                                        'line': t['line'], 'exp': False, 'inlined_ret': g.path}]
+                nb['term'] = {'k': 'goto', 'target': t['target'], 'line': t['line'], 'exp': False}
+            blocks.append(nb)
+            work.append((len(blocks) - 1, d + 1))
+        stmts = list(blk['stmts'])
+        for i, a in enumerate(t['args']):
+            stmts.append({'k': 'assign', 'lhs': {'l': loff + 1 + i, 'p': []}, 'rv': {'k': 'use', 'op': a}, 'line': t['line'], 'exp': False, 'inlined_arg': g.path})
+        blk['stmts'] = stmts
+        blk['term'] = {'k': 'goto', 'target': boff, 'line': t['line'], 'exp': False, 'inlined_call': g.path}
+        inlined.append(g.path)
+    out = dict(mir)
+    out['blocks'] = blocks
+    out['locals'] = locals_
+    return out, inlined
+
+
+def inlined_fn(facts, path, pick, tag='inl'):
+    """synthetic Fn `<path>{tag}` whose body has the picked private helpers inlined; cached in facts.fns"""
+    key = '%s{%s}' % (path, tag)
+    if key in facts.fns.synth:
+        return facts.fns.synth[key]
+    fn = facts.fns[path]
+    mir, inl = inline_mir(fn.body.mir, facts, path, pick)
+    if not inl:
+        return fn
+    x = dict(fn.x)
+    x['path'] = key
+    x['mir'] = mir
+    g = Fn(facts, x)
+    g.inlined = inl
+    g.origin = path
+    facts.fns.synth[key] = g
+    return g
+
+
+def self_helper(adt):
+    """pick(): private inherent methods of `adt` called on the caller's own self"""
+    def pick(g, t):
+        return g.impl_self_adt == adt and not g.impl_trait and not g.reachable
+    return pick
